@@ -121,6 +121,8 @@ pub struct Access<'w, 's>
     w1: Reactor<'w, W1>,
     w2: Reactor<'w, W2>,
     despawner: Res<'w, AutoDespawner>,
+    h1: Query<'w, 's, Entity, With<React<C1>>>,
+    h2: Query<'w, 's, Entity, With<React<C2>>>,
 }
 
 /// Kept out of `Access`: the entity world reactor's own system already holds this resource through `EntityLocal`.
@@ -311,7 +313,15 @@ fn issue(op: &Op, r: i64, i: usize, c: &mut Commands, acc: Option<&mut Access>, 
     let mut ret = json!(0);
     let mut skipped = false;
     // ops that reference a system which has not been spawned (a one-off slot) are skipped
-    let need_sys = match op { Op::Run(s) | Op::SysEv(s, _) | Op::SysEvSig(s, _, _) | Op::DespSys(s) | Op::Reg(_, s, _, _) => Some(*s), _ => None };
+    let need_sys = match op { Op::Run(s) | Op::SysEv(s, _) | Op::XSysEv(s, _) | Op::SysEvSig(s, _, _) | Op::DespSys(s) | Op::Reg(_, s, _, _) => Some(*s), _ => None };
+    // the single-entity accessors panic unless exactly one entity carries the component: only called when it is this one
+    if let Op::SMut(e, x, _) | Op::SSet(e, x, _) | Op::SNo(e, x, _) = op
+    {
+        let want = ent_entity(*e);
+        let acc = acc.as_ref().expect("accessor op in exclusive system");
+        let holders: Vec<Entity> = if *x == 1 { acc.h1.iter().collect() } else { acc.h2.iter().collect() };
+        if holders != vec![want] { skipped = true; }
+    }
     if let Some(s) = need_sys { if sys_entity(s).is_none() { skipped = true; } }
     if let Op::Revoke(k) = op { if !with_state(|st| st.tokens.contains_key(k)) { skipped = true; } }
     if skipped
@@ -406,10 +416,28 @@ fn issue(op: &Op, r: i64, i: usize, c: &mut Commands, acc: Option<&mut Access>, 
             let e = ent_entity(*e);
             if let Some(ec) = c.get_entity(e) { ec.despawn_recursive(); ret = json!(1); }
         }
-        Op::XDesp(_) | Op::XDespRec(_) | Op::XRm(_, _) =>
+        Op::SMut(_, x, v) =>
+        {
+            let acc = acc.expect("accessor op in exclusive system");
+            if *x == 1 { acc.c1.single_mut(c).1.0 = *v; } else { acc.c2.single_mut(c).1.0 = *v; }
+            ret = json!(1);
+        }
+        Op::SSet(_, x, v) =>
+        {
+            let acc = acc.expect("accessor op in exclusive system");
+            let old = if *x == 1 { acc.c1.set_single_if_not_eq(c, C1(*v)).1.map(|o| o.0) } else { acc.c2.set_single_if_not_eq(c, C2(*v)).1.map(|o| o.0) };
+            ret = json!(old.map(|o| o as i64).unwrap_or(-1));
+        }
+        Op::SNo(_, x, v) =>
+        {
+            let acc = acc.expect("accessor op in exclusive system");
+            if *x == 1 { acc.c1.single_noreact().1.0 = *v; } else { acc.c2.single_noreact().1.0 = *v; }
+            ret = json!(1);
+        }
+        Op::XDesp(_) | Op::XDespRec(_) | Op::XRm(_, _) | Op::XBc(_, _) | Op::XEEv(_, _, _) | Op::XSysEv(_, _) =>
         {
             let op = op.clone();
-            ret = json!(1);
+            ret = json!(if matches!(op, Op::XBc(..) | Op::XEEv(..) | Op::XSysEv(..)) { 0 } else { 1 });
             c.queue(move |w: &mut World| direct(w, &op));
         }
         Op::DespSys(s) =>
@@ -485,6 +513,13 @@ fn direct(w: &mut World, op: &Op)
                 if *x == 1 { em.remove::<React<C1>>(); } else { em.remove::<React<C2>>(); }
             }
         }
+        Op::XBc(t, p) => { if *t == 1 { w.broadcast(B1(*p)); } else { w.broadcast(B2(*p)); } }
+        Op::XEEv(e, t, p) =>
+        {
+            let e = ent_entity(*e);
+            if *t == 1 { w.entity_event(e, B1(*p)); } else { w.entity_event(e, B2(*p)); }
+        }
+        Op::XSysEv(s, p) => { w.send_system_event(SystemCommand(sys_entity(*s).unwrap()), P1(*p, None)); }
         _ => panic!("not a direct op: {:?}", op),
     }
 }
@@ -652,7 +687,11 @@ pub fn run_program(cfg: &Config, steps: &mut dyn Iterator<Item = Step>, source: 
                 Step::Direct(ops) =>
                 {
                     let step = -(n as i64);
-                    for (i, op) in ops.iter().enumerate() { emit(json!({"t":"issue","r":step,"i":i+1,"op":op.to_json(),"ret":1})); }
+                    for (i, op) in ops.iter().enumerate()
+                    {
+                        let ret = if matches!(op, Op::XBc(..) | Op::XEEv(..) | Op::XSysEv(..)) { 0 } else { 1 };
+                        emit(json!({"t":"issue","r":step,"i":i+1,"op":op.to_json(),"ret":ret}));
+                    }
                     for (i, op) in ops.iter().enumerate()
                     {
                         emit(json!({"t":"apply","r":step,"i":i+1}));
